@@ -1236,6 +1236,7 @@ func runRate(c caseDesc) *report {
 		park := cfg
 		park.QPSInterval = time.Second
 		ov.Update(park)
+		atomic.AddInt64(&liveParked, int64(1+len(park.MaxHandlerQPS)))
 		for _, l := range links {
 			l.CA.Sever(false)
 		}
@@ -1427,6 +1428,7 @@ func runWindow(c caseDesc) *report {
 		park := cfg
 		park.QPSInterval = time.Second
 		ov.Update(park)
+		atomic.AddInt64(&liveParked, int64(1+len(park.MaxHandlerQPS)))
 		for _, l := range links {
 			l.CA.Sever(false)
 		}
@@ -1589,6 +1591,194 @@ func genWindow(i int, r *core.Rand) caseDesc {
 	return c
 }
 
+// ---------- rate engine: Update of the refill interval (configured refill, wall-clock upper bound) ----------
+
+// liveParked counts the tickers of finished rate cases of this process (parked at one tick per second).
+var liveParked int64
+
+// runUpdate creates a limiter (total or per-handler), drives a little traffic, changes the configuration with
+// Update (a LARGER interval is the interesting direction; a smaller interval and a MaxQPS-only change are the
+// controls) and then keeps a steady load of calls for a window of >= 6 new intervals. The statement's "refill of
+// that interval" is the CONFIGURED refill: a time.Ticker never fires more often than its interval, so in a
+// window of monotonic-clock length `elapsed` at most elapsed/interval + 3 refills can be observed (one that
+// fired just before the window, one right at its start, one left in the stopped old ticker's channel), under any
+// load - a slow machine only sees fewer. This is the only place where wall-clock time enters a C18 verdict, as an
+// upper bound that load can only loosen.
+func runUpdate(c caseDesc) *report {
+	rp := &report{extra: map[string]interface{}{}}
+	interval0 := time.Duration(c.IntervalMs) * time.Millisecond
+	rs := &rateState{arrived: map[string]bool{}, passed: map[string]bool{}, handled: map[string]bool{}}
+	curRate.Store(rs)
+	handler := c.Mode == "handler"
+	cfg := overloader.LimitConfig{QPSInterval: interval0}
+	if !handler {
+		cfg.MaxTotalQPS = int32(c.MaxQPS)
+	}
+	ov := overloader.New(cfg)
+	srv := erpc.NewPeer(erpc.PeerConfig{}, rateArrive{}, ov, ratePassed{})
+	rs.callRoute = srv.RouteCallFunc(RateCall)
+	rs.pushRoute = srv.RoutePushFunc(RatePush)
+	if handler {
+		cfg.MaxHandlerQPS = []overloader.HandlerLimit{{ServiceMethod: rs.callRoute, MaxQPS: int32(c.MaxQPS)}}
+		ov.Update(cfg) // creates the per-handler limiter (full bucket, short interval)
+	}
+	cur := cfg
+	cli := erpc.NewPeer(erpc.PeerConfig{})
+	var links []*bed.Link
+	defer func() {
+		park := cur
+		park.QPSInterval = time.Second
+		ov.Update(park)
+		atomic.AddInt64(&liveParked, 1)
+		for _, l := range links {
+			l.CA.Sever(false)
+		}
+		srv.Close()
+		cli.Close()
+	}()
+	for i := 0; i < 4; i++ {
+		l, err := bed.Connect(cli, srv, erpc.DefaultProtoFunc(), erpc.DefaultProtoFunc(), nil)
+		if err != nil {
+			rp.inconclusive = err.Error()
+			return rp
+		}
+		links = append(links, l)
+	}
+	var seq int64
+	call := func(sess erpc.Session) {
+		tok := fmt.Sprintf("u%d", atomic.AddInt64(&seq, 1))
+		var res string
+		if _, st := sess.Call(rs.callRoute, tok, &res, erpc.WithSetMeta("tok", tok)).Reply(); !st.OK() {
+			atomic.AddInt64(&rp.rejected, 1)
+		}
+	}
+	// a little traffic under the first configuration; every reply is in before the update
+	var wg sync.WaitGroup
+	for j := 0; j < c.MaxQPS/2+1; j++ {
+		wg.Add(1)
+		go func(j int) { defer wg.Done(); call(links[j%len(links)].A) }(j)
+	}
+	if !waitWG(&wg, watchdog) {
+		rp.inconclusive = "warm-up calls incomplete after the watchdog"
+		return rp
+	}
+	// the update
+	newQPS, newInterval := c.MaxQPS, interval0
+	st := c.Steps[0]
+	switch st.Op {
+	case "update-interval":
+		newInterval = time.Duration(st.Arg) * time.Millisecond
+	case "update-maxqps":
+		newQPS = st.Arg
+	default:
+		core.Fatalf("unknown update step %q", st.Op)
+	}
+	cur.QPSInterval = newInterval
+	if handler {
+		cur.MaxHandlerQPS = []overloader.HandlerLimit{{ServiceMethod: rs.callRoute, MaxQPS: int32(newQPS)}}
+	} else {
+		cur.MaxTotalQPS = int32(newQPS)
+	}
+	ov.Update(cur)
+	capacity := int64(c.MaxQPS) // tokens left from the old configuration are not cut by an update
+	if int64(newQPS) > capacity {
+		capacity = int64(newQPS)
+	}
+	once := onceOf(newQPS, newInterval)
+	window := 6 * newInterval
+	if window < 300*time.Millisecond {
+		window = 300 * time.Millisecond
+	}
+	parked := atomic.LoadInt64(&liveParked)
+	// the window: clock, ticks, admitted ... load ... admitted, ticks, clock
+	tStart := time.Now()
+	tb := overloader.VerifTicks()
+	p0 := atomic.LoadInt64(&rs.nPassed)
+	for g := 0; g < 8; g++ {
+		wg.Add(1)
+		go func(g int) {
+			defer wg.Done()
+			for time.Since(tStart) < window {
+				call(links[g%len(links)].A)
+				time.Sleep(500 * time.Microsecond)
+			}
+		}(g)
+	}
+	if !waitWG(&wg, watchdog+window) {
+		rp.inconclusive = "steady load incomplete after the watchdog"
+		return rp
+	}
+	p1 := atomic.LoadInt64(&rs.nPassed)
+	ta := overloader.VerifTicks()
+	elapsed := time.Since(tStart)
+	allowed := int64(elapsed/newInterval) + 3 + parked*(int64(elapsed/time.Second)+2)
+	ticks, admitted := ta-tb, p1-p0
+	rp.evals = 2
+	if ticks > allowed {
+		rp.add("refill-too-fast", fmt.Sprintf("after Update(%s): %d refill ticks in a window of %v; interval in force %v allows at most %d (elapsed/interval + 3%s)",
+			describeStep(st), ticks, elapsed.Round(time.Millisecond), newInterval, allowed, parkedNote(parked)), nil)
+	}
+	if bound := capacity + allowed*(once+1); admitted > bound {
+		rp.add("rate-exceeded", fmt.Sprintf("after Update(%s): %d calls admitted in a window of %v; capacity %d + configured refill (%d ticks at most) * (once %d + 1) = %d",
+			describeStep(st), admitted, elapsed.Round(time.Millisecond), capacity, allowed, once, bound), nil)
+	}
+	rp.admitted = admitted
+	rp.extra["variant"], rp.extra["update"] = c.Mode, describeStep(st)
+	rp.extra["interval_before_ms"], rp.extra["interval_in_force_ms"] = c.IntervalMs, int64(newInterval/time.Millisecond)
+	rp.extra["window_ms"], rp.extra["ticks_in_window"], rp.extra["ticks_allowed"] = int64(elapsed/time.Millisecond), ticks, allowed
+	rp.extra["admitted_in_window"], rp.extra["admitted_bound"] = admitted, capacity+allowed*(once+1)
+	rp.extra["parked_tickers_of_earlier_cases"] = parked
+	core.Add("rate_update_cases", 1)
+	core.Add("rate_update_ticks_in_windows", ticks)
+	core.Add("rate_update_ticks_allowed_in_windows", allowed)
+	core.Add("rate_admitted", admitted)
+	rp.sig = fmt.Sprintf("rate/%s/cap%d/int%dms/%s", c.HClass, c.MaxQPS, c.IntervalMs, describeStep(st))
+	rp.nontrivial = admitted > 0 && ticks > 0 && atomic.LoadInt64(&rp.rejected) > 0
+	return rp
+}
+
+func describeStep(st step) string {
+	if st.Op == "update-interval" {
+		return fmt.Sprintf("QPSInterval -> %dms", st.Arg)
+	}
+	return fmt.Sprintf("MaxQPS -> %d", st.Arg)
+}
+
+func parkedNote(n int64) string {
+	if n == 0 {
+		return ""
+	}
+	return fmt.Sprintf(" + %d parked one-per-second tickers of earlier cases", n)
+}
+
+func genUpdate(i int, r *core.Rand) caseDesc {
+	c := caseDesc{Engine: "rate", Sessions: 4, Seed: int64(r.Uint64() >> 1)}
+	c.Mode = []string{"total", "handler"}[i%2]
+	c.MaxQPS = []int{20, 40}[r.Intn(2)]
+	kind := []string{"larger", "larger", "smaller", "maxqps"}[(i/2)%4]
+	switch kind {
+	case "larger": // 5-10x larger, the window of 6 new intervals stays <= 1.5 s
+		short := []int{20, 25, 40, 50}[r.Intn(4)]
+		mult := []int{5, 8, 10}[r.Intn(3)]
+		if short*mult > 250 {
+			mult = 5
+		}
+		c.IntervalMs = short
+		c.Steps = []step{{Op: "update-interval", Arg: short * mult}}
+		c.HClass = "update-interval-larger/" + c.Mode
+	case "smaller":
+		c.IntervalMs = []int{200, 250}[r.Intn(2)]
+		c.Steps = []step{{Op: "update-interval", Arg: c.IntervalMs / []int{5, 10}[r.Intn(2)]}}
+		c.HClass = "update-interval-smaller/" + c.Mode
+	default:
+		c.IntervalMs = []int{25, 50}[r.Intn(2)]
+		c.Steps = []step{{Op: "update-maxqps", Arg: []int{10, 60}[r.Intn(2)]}}
+		c.HClass = "update-maxqps-only/" + c.Mode
+	}
+	c.Class = "rate/" + c.HClass
+	return c
+}
+
 // fakeCtx lets the header hook be driven directly: the limiter only asks for the service method.
 type fakeCtx struct {
 	erpc.ReadCtx
@@ -1608,6 +1798,7 @@ func runRateDirect(c caseDesc) *report {
 		park := cfg
 		park.QPSInterval = time.Second
 		ov.Update(park)
+		atomic.AddInt64(&liveParked, int64(1+len(park.MaxHandlerQPS)))
 	}()
 	capacity, once := int64(c.MaxQPS), onceOf(c.MaxQPS, interval)
 	var admitted, refused int64
@@ -1741,6 +1932,8 @@ func execute(id string, c caseDesc) {
 		rp = runSeq(c)
 	case c.Engine == "conn":
 		rp = runConc(c)
+	case strings.HasPrefix(c.HClass, "update-"):
+		rp = runUpdate(c)
 	case strings.HasPrefix(c.HClass, "window-"):
 		rp = runWindow(c)
 	case c.HClass == "direct":
@@ -1826,10 +2019,10 @@ func main() {
 	}
 
 	nSeq, nConc, nLin, linPer, nRate := 130, 24, 20, 60, 24
-	nWin := 8
+	nWin, nUpd := 8, 8
 	if *tier == "thorough" {
 		nSeq, nConc, nLin, linPer, nRate = 4400, 600, 400, 100, 500
-		nWin = 128
+		nWin, nUpd = 128, 128
 		minBudget = 80
 	}
 	type job struct {
@@ -1839,6 +2032,10 @@ func main() {
 	var jobs []job
 	r := core.NewRand(*seed, 18)
 	// the windowed rate cases come first: no ticker of an earlier rate case of the process is alive yet
+	ru := core.NewRand(*seed, 182)
+	for i := 0; i < nUpd; i++ {
+		jobs = append(jobs, job{fmt.Sprintf("upd%04d", i), genUpdate(i, ru)})
+	}
 	rw := core.NewRand(*seed, 181)
 	for i := 0; i < nWin; i++ {
 		jobs = append(jobs, job{fmt.Sprintf("win%04d", i), genWindow(i, rw)})
